@@ -20,6 +20,7 @@ import (
 func H_C01_MetaLeaseSet() {
 	shapes := metaShapes()
 	i := nd.IntRange(0, len(shapes)-1)
+	expShape("accepted", i)
 	in, total := shapes[i].build()
 	m, rem, err := meta_leaseset.ReadMetaLeaseSet(in)
 	if err != nil {
@@ -43,6 +44,7 @@ func H_C01_MetaLeaseSet() {
 func H_C01_EncryptedLeaseSet() {
 	shapes := encShapes()
 	i := nd.IntRange(0, len(shapes)-1)
+	expShape("accepted", i)
 	in, total := shapes[i].build()
 	e, rem, err := encrypted_leaseset.ReadEncryptedLeaseSet(in)
 	if err != nil {
@@ -66,6 +68,7 @@ func H_C01_EncryptedLeaseSet() {
 func H_C01_LeaseSet() {
 	shapes := lsShapes()
 	i := nd.IntRange(0, len(shapes)-1)
+	expShape("accepted", i)
 	in, total := shapes[i].build()
 	ls, err := lease_set.ReadLeaseSet(in)
 	if err != nil {
@@ -91,6 +94,7 @@ func H_C01_LeaseSet() {
 func H_C01_RouterInfo() {
 	shapes := riShapes()
 	i := nd.IntRange(0, len(shapes)-1)
+	expShape("accepted", i)
 	in, total := shapes[i].build()
 	ri, rem, err := router_info.ReadRouterInfo(in)
 	if err != nil {
